@@ -106,7 +106,7 @@ func buildC11(needRace bool) (*c11Builds, error) {
 }
 
 func runC11(r *h.Run) {
-	r.Rule = "schedule exploration on the real read paths: scheduling points are injected before every statement of packages trie, encode, array, index (generated from the current working tree, applied with go build -overlay; sync is routed through a cooperative shim); instances {fresh Complete small, fresh filter with de-duplicated values, fresh Complete with a 257-bit root and short nodes, the same loaded from current bytes, loaded from 0.5.10-allpref (prefix re-encoding), loaded from 0.5.9 (rebuild)} x all unordered pairs (with repetition) of the operation alphabet {Get, Get(absent), GetID, RangeGet, Search, Search(absent), GetI32, Stat, ScanFrom, ScanFromTo, two NewIter+next sequences, String, Marshal, proto.Size} with colliding arguments, plus triples of short operations; (1) every state and transition of the interleaving lattice is covered, states identified by the per-thread step vector while no step changed the deep digest of (instance, package globals), taken after EVERY step (sound because thread-local state is a function of own steps and of shared values that stayed constant); a step that changes the digest disables the cache below it and alternatives are explored to the preemption bound; (2) WITHOUT the cache: all schedules with at most 2 preemptions for two-thread scenarios of at most 170 steps (thorough: 420 steps, and at most 3 preemptions up to 120 steps), and all schedules with at most 1 (thorough 2) preemptions for the three-thread scenarios; oracle: every call returns exactly what it returned alone; replayed prefixes must reproduce the (thread, site) sequence. (3) auxiliary: the same scenario bodies free-running under -race with 2, 3, 8, 32 goroutines. A state is a lattice state; non-trivial = scenario with at least 2 threads (all)"
+	r.Rule = "schedule exploration on the real read paths: scheduling points are injected before every statement of packages trie, encode, array, index (generated from the current working tree, applied with go build -overlay; sync is routed through a cooperative shim); instances {fresh Complete small, fresh filter with de-duplicated values, fresh Complete with a 257-bit root and short nodes, the same loaded from current bytes, loaded from 0.5.10-allpref (prefix re-encoding), loaded from 0.5.9 (rebuild)} x all unordered pairs (with repetition) of the operation alphabet {Get, Get(absent), GetID, RangeGet, Search, Search(absent), GetI32, Stat, ScanFrom, ScanFromTo, two NewIter+next sequences, String, Marshal, proto.Size} with colliding arguments, plus triples of short operations; plus the family *separate instances*: pairs of operations that each load a stream (0.5.10-allpref, 0.5.11-innpref, current) into an instance of their own and read it, which can only collide on package-level state of the load path (NewSlimTrie and the pre-0.5.10 rebuild are not in this alphabet: the builder ranges over Go maps, whose order the scheduler cannot own, so their step sequences do not replay); (1) every state and transition of the interleaving lattice is covered, states identified by the per-thread step vector while no step changed the deep digest of (instance, package globals), taken after EVERY step (sound because thread-local state is a function of own steps and of shared values that stayed constant); a step that changes the digest disables the cache below it and alternatives are explored to the preemption bound; (2) WITHOUT the cache: all schedules with at most 2 preemptions for two-thread scenarios of at most 170 steps (thorough: 420 steps, and at most 3 preemptions up to 120 steps), and all schedules with at most 1 (thorough 2) preemptions for the three-thread scenarios; oracle: every call returns exactly what it returned alone; replayed prefixes must reproduce the (thread, site) sequence. (3) auxiliary: the same scenario bodies free-running under -race with 2, 3, 8, 32 goroutines. A state is a lattice state; non-trivial = scenario with at least 2 threads (all)"
 	r.Assumptions = []string{
 		"scheduling granularity is the statement of the instrumented packages; vendored dependencies (openacid/low, protobuf) run atomically within a step, their writes to shared memory are seen by the digest",
 		"protobuf's XXX_sizecache and the generated xxx_messageInfo globals are memo fields written with atomics: excluded from the digest",
